@@ -26,11 +26,6 @@ Definition res_eqb (m : res (option (list repair))) (o : Z * list orep) : bool :
   | Ok (Some rs) => (fst o =? 1) && list_eqb orep_eqb (map orep_of rs) (snd o)
   end.
 
-Definition enc_model_ok (c : enc_case) : bool :=
-  let '(pt, ssrc, bs) := c in
-  list_eqb res_eqb (run_batches (new_encoder pt ssrc) (map (fun b => (fst (fst b), snd (fst b))) bs))
-           (map snd bs).
-
 (* list_eqb over different element types *)
 Fixpoint list_eqb2 {A B} (eqb : A -> B -> bool) (l1 : list A) (l2 : list B) : bool :=
   match l1, l2 with
@@ -79,8 +74,7 @@ Definition last_sn (last : option Z) (sns : list Z) : option Z :=
         (includes: the packets XOR-ed are not exactly the packets the mask names)
      1  some media packet is named by no repair packet
      5  FEC SSRC / payload type
-     6  repair sequence numbers do not increase by one (within the batch and from the previous batch)
-     13 repair protects another SSRC than the batch's *)
+     6  repair sequence numbers do not increase by one (within the batch and from the previous batch) *)
 Definition batch_code (pt ssrc : Z) (last : option Z) (media : list (list Z)) (reps : list orep) : nat :=
   let k := Z.of_nat (length media) in
   let parsed := map (fun r : orep => parse03 (snd r)) reps in
@@ -190,4 +184,4 @@ Fixpoint icpt_spec (nm nf pt fssrc : Z) (mssrc : list Z) (last : option Z) (pend
 Definition icpt_spec_failures (cases : list icpt_case) : list (Z * Z) :=
   find_codes (fun c : icpt_case =>
     let '((nm, nf, pt, fssrc, mssrc), ws, outs) := c in
-    icpt_spec nm nf pt fssrc mssrc None [] ws (firstn (length ws) outs ++ [])) cases 0.
+    icpt_spec nm nf pt fssrc mssrc None [] ws outs) cases 0.
